@@ -213,7 +213,7 @@ def run(rep, ctx):   # noqa: F811  (final definition)
     run_N(rep, g, reach)
 
 
-def run_N(rep, g, reach, scope_name='read-reachable'):
+def run_N(rep, g, reach, scope_name='read-reachable', floor=90):
     """N: narrowing / sign-changing integer casts must be value-preserving by interval + guard
     reasoning, a cast-and-compare-back idiom, or an exact-key reviewed entry."""
     from .. import panic_sites as ps
@@ -248,7 +248,7 @@ def run_N(rep, g, reach, scope_name='read-reachable'):
                 rep.ok('N', key, 'cast result is converted back and compared with its source', loc, why='cast-and-compare-back idiom')
                 continue
             rep.bad('N', key, 'cast %s -> %s of `%s` may truncate or change sign (operand range %s)' % (sty, tty, fn.fmt_op(rv[2], 5), src), loc)
-    rep.floor('N', 'narrowing casts analysed', n, 90)
+    rep.floor('N', 'narrowing casts analysed', n, floor)
     return n
 
 
